@@ -12,13 +12,13 @@ NOTE = ("Trusted: Lean 4.33 kernel; axioms propext/Classical.choice/Quot.sound o
 
 SRC_TIE = {
     "C01": "_trigger (both engines), CallbackWrapper.call/__call__ and CallbacksExecutor.all/async_all",
-    "C02": "_activate (both engines), CallbackWrapper.call/__call__ and CallbacksExecutor.call/async_call",
+    "C02": "_activate (both engines), CallbackWrapper.call/__call__ and CallbacksExecutor.call/async_call; the registry (CallbacksExecutor.add, __lt__ under insort, Listeners.search_name / resolve: which callbacks are in which group, in which order)",
     "C03": "processing_loop (both engines), Event.__call__ and StateMachine.send (put, then the loop)",
     "C07": "Event.__call__ (the reserved keywords are stripped before the trigger is built) and the two name lists — `_event_data_kwargs` and the keys `EventData.extended_kwargs` injects — proved equal (reserved_eq_injected); SignatureAdapter.bind_expected translated structurally (every if/elif/else, test and statement of its two loops) and proved to mean the binder model (runBind_bindExpected), dispatcher.callable_method's two adapters proved to be invokeWith (runC_invokeWith), so that C07_receive_scripts states the property about the scripts themselves",
     "C09": "graph.visit_connected_states (the deque loop, proved to be the model's `go`: runLoop_go, reachBy_bfs), StateMachineMetaclass._check with the five _check_* methods and their two helpers (which list each computes, when it is a problem, raise vs strict-or-warn; proved to be the model's `check` for every class definition: runCheck_check), the order of the steps of the metaclass' __init__ (metaInit_order) and Transition.__init__ (internal-transition test, which keyword feeds which callback group with which expected value)",
     "C13": "StateMachine.send and Event.__call__: every calling style is the same put-then-process (runS_send, runE_send); the properties `events` / `allowed_events` (which names are looked up on the instance: allowed_shape)",
     "C10": "statemachine.py: the getter and the checked setter of current_state_value, the getter and setter of current_state, _get_initial_state and the constructor's choice of the model object, proved to be currentStateValue / writeValue / currentState / writeState / initialValue true / chooseModel true of the store model (runVGet_value, runVSet_writeValue, runSGet_currentState, runSSet_writeState, runIGet_initial, chooseModelBy_chooseModel)",
-    "C12": "statemachine.py: the constructor (every provider registered before the engine is chosen: ctor_order), _register_callbacks (one pass over machine, model, constructor listeners; then the check; then the engine kind) and add_listener (a pass over the given listeners only, names only, remembered for copies)",
+    "C12": "statemachine.py: the constructor (every provider registered before the engine is chosen: ctor_order), _register_callbacks (one pass over machine, model, constructor listeners; then the check; then the engine kind) and add_listener (a pass over the given listeners only, names only, remembered for copies); callbacks.py / dispatcher.py: CallbacksExecutor.add (= Reg.add: runAdd_add), CallbackWrapper.__lt__ under bisect.insort (= Reg.insort), Listeners.search_name (= Reg.buildSpec), Listeners.resolve (= Reg.resolveInto: runResolve_resolveInto), CallbacksRegistry.check / async_or_sync",
     "C17": "statemachine.py: __getstate__ (what is left out and what is recorded: getState_shape) and __setstate__ (state given back to an empty model, constructor pass, late passes replayed one by one, engine chosen and started last: setState_order), _register_callbacks, add_listener",
     "C04": "_activate and processing_loop (both engines), CallbacksExecutor.call/async_call",
     "C05": "_activate, _trigger and processing_loop of both engines (`async = sync with awaits`), the wrapper and executor methods of callbacks.py in their sync and async forms",
@@ -148,7 +148,7 @@ def main():
     man = dict(
         version=1,
         setup_cmd="cd lean && lake build SMV SMV.Props.Examples " + " ".join(f"SMV.Props.{p}" for p in props) +
-                  " SMV.Src.Tie SMV.Src.TieExpr SMV.Src.TieBind SMV.Src.TieCheck SMV.Src.TieStore driver drv_bind drv_expr drv_validate drv_protocol drv_diagram drv_decl drv_store",
+                  " SMV.Src.Tie SMV.Src.TieExpr SMV.Src.TieBind SMV.Src.TieCheck SMV.Src.TieStore SMV.Src.TieReg driver drv_bind drv_expr drv_validate drv_protocol drv_diagram drv_decl drv_store",
         hooks=dict(guard="PYSM_VERIF", enable="no source hooks are used: observation is through the public API, sys.settrace and objects supplied by the harness",
                    baseline_off_cmd=BASE.get("cmd", "cd /repo && /venv/bin/python -m pytest -q"), source_commits=[], add_only=True),
         engines=[dict(name="lean+harness", path="lean/ + harness/", serves_properties=[c["property_id"] for c in checks],
